@@ -164,4 +164,87 @@ theorem names_false_for_open_generic :
     (.bound 0, "T") ∈ varOccs (printToks t) ∧ (.bound 1, "T") ∈ varOccs (printToks t) := by
   decide
 
+/-! ## Round 6: existential variables of both kinds, ids from the session allocator -/
+
+theorem alloc_run_ge (ks : List EKind) : ∀ (a : Alloc), ∀ x ∈ a.run ks, a.next ≤ x.2 := by
+  induction ks with
+  | nil => intro a x hx; simp [Alloc.run] at hx
+  | cons k ks ih =>
+    intro a x hx
+    simp only [Alloc.run, List.mem_cons] at hx
+    rcases hx with rfl | hx
+    · simp
+    · have := ih ⟨a.next + 1⟩ x hx
+      simp at this; omega
+
+/-- **C31 (allocator)**: any sequence of `.fresh` calls of either kind on the shared counter hands out
+    pairwise distinct ids — in particular a type variable and a const variable never share an id. -/
+theorem fresh_ids_distinct_across_kinds (ks : List EKind) : ∀ (a : Alloc), ((a.run ks).map (·.2)).Nodup := by
+  induction ks with
+  | nil => intro a; simp [Alloc.run]
+  | cons k ks ih =>
+    intro a
+    simp only [Alloc.run, List.map_cons, List.nodup_cons, List.mem_map, not_exists, not_and]
+    refine ⟨?_, ih _⟩
+    intro x hx e
+    have := alloc_run_ge ks ⟨a.next + 1⟩ x hx
+    simp at this; omega
+
+theorem evarOccs_sub : ∀ (toks : List Tok) (o : EKind × Nat × String), o ∈ evarOccs toks →
+    (VarId.exist o.2.1, o.2.2) ∈ varOccs toks
+  | [], o, h => by simp [evarOccs] at h
+  | t :: r, o, h => by
+      cases t with
+      | evar s id c =>
+        simp only [evarOccs, List.mem_cons] at h
+        simp only [varOccs, List.mem_cons]
+        rcases h with rfl | h
+        · exact Or.inl rfl
+        · exact Or.inr (evarOccs_sub r o h)
+      | ident s v =>
+        simp only [evarOccs] at h
+        cases v <;> simp only [varOccs, List.mem_cons] <;> first
+          | exact evarOccs_sub r o h
+          | exact Or.inr (evarOccs_sub r o h)
+      | _ => simp only [evarOccs] at h; simp only [varOccs]; exact evarOccs_sub r o h
+
+/-- **C31 (names, both kinds)**: if the existential variables of `t` (type AND const variables) were
+    handed out by one run of the shared allocator — explicit hypothesis: ids are unique across kinds —
+    then two existential occurrences in the printed form carry the same name iff they are the same
+    variable, a variable being (kind, id).  In particular `?T` never stands for a type variable and a
+    const variable at once.  Without the hypothesis this is false: `per_kind_counters_share_a_name`. -/
+theorem evars_of_both_kinds_distinct_names (ctxNames : List String) (t : Ty) (h : NamesOK ctxNames t)
+    (a : Alloc) (ks : List EKind)
+    (halloc : ∀ o ∈ evarOccs (printToks t), (o.1, o.2.1) ∈ a.run ks) :
+    ∀ o1 ∈ evarOccs (printToks t), ∀ o2 ∈ evarOccs (printToks t),
+      (o1.2.2 = o2.2.2 ↔ (o1.1, o1.2.1) = (o2.1, o2.2.1)) := by
+  intro o1 h1 o2 h2
+  have hn := distinct_vars_distinct_names ctxNames t h _ (evarOccs_sub _ o1 h1) _ (evarOccs_sub _ o2 h2)
+  simp only [VarId.exist.injEq] at hn
+  rw [hn]
+  constructor
+  · intro e
+    have m1 := halloc o1 h1
+    have m2 := halloc o2 h2
+    have hnd := fresh_ids_distinct_across_kinds ks a
+    have := nodup_map_inj (·.2) _ hnd _ m1 _ m2 e
+    exact this
+  · intro e; exact congrArg Prod.snd e
+
+/-- with one counter per kind (the seeded variant) the first type variable and the first const
+    variable both get id 0 … -/
+theorem per_kind_counters_collide :
+    Alloc2.run ⟨0, 0⟩ [.ty, .const] = [(.ty, 0), (.const, 0)] := by decide
+
+/-- … and `array[?T, ?n]` built from them prints as `array[?T, ?T]`: one name for two variables -/
+theorem per_kind_counters_share_a_name :
+    let t : Ty := .opaque "array" [.ty (.evar "T" 0 true true), .const (.evar (.num .nat) "n" 0)]
+    printStr t = some "array[?T, ?T]" ∧
+      evarOccs (printToks t) = [(.ty, 0, "?T"), (.const, 0, "?T")] := by decide
+
+/-- non-vacuity: the shared allocator gives `?T` and `?n` different ids and they print apart -/
+example :
+    let t : Ty := .opaque "array" [.ty (.evar "T" 0 true true), .const (.evar (.num .nat) "T" 1)]
+    (Alloc.run ⟨0⟩ [.ty, .const] = [(.ty, 0), (.const, 1)]) ∧ printStr t = some "array[?T, ?T'1]" := by decide
+
 end GuppyVerif.Print
